@@ -19,7 +19,9 @@ func init() {
 			"R1 the echo filter is enumerated (K4) over the 6 consistent valuations of A=(origin==\"\"), B=(subject node id==own node id), C=(origin==own node id) for uniform batches of one and two points on a three-token subject: " +
 			"the batch is dropped iff (A∧B)∨C and otherwise delivered exactly once through Points(subject token 2, the decoded slice unchanged) to the client of the state whose node id the filter compares with; " +
 			"R2 on a four-token subject a batch of ordinary edge points from a foreign author is delivered exactly once through EdgePoints(token 2, token 3, the decoded slice), a tombstone (value 0 or 1) or node-type point reaches the client state's stop on every path, and no subject token beyond the arity established on the path is indexed for subjects of 3, 4 or 5 tokens; " +
-			"R3 the handler is subscribed on \"up.<own node id>.>\". " +
+			"R3 the handler is subscribed on \"up.<own node id>.>\"; " +
+			"R4 the node every client-state constructor call is handed is traced (through locals, range clauses, append, the returns of called functions and from parameters to the arguments of all call sites) to calls that are handed the bus connection and return nodes, i.e. it is read from the store by the activation that starts the client: a node kept in a client state, a field of the manager or a package variable lacks the foreign points delivered to the previous client of the node, which are not delivered again; " +
+			"R5 the storage behind the slice handed to Points / EdgePoints is traced (into the decoder) to allocations made while the message is handled (make, literal, append onto nil): storage reachable from a variable the handler literal captures, a field or a package variable is decoded into again by the next message while the client still holds the previous batch. " +
 			"Delivery order, mixed-author batches, the rebroadcast that feeds the subject (C06) and the folding of points into the configuration (C10/C11) are not decided.",
 		Assumptions: []string{
 			"NATS delivers the messages published on up.<id>.… to the subscription in publication order; a subject matching up.<id>.> has at least three tokens",
@@ -27,6 +29,8 @@ func init() {
 			"node ids are non-empty, hence origin==\"\" and origin==own id exclude each other",
 			"each batch carries one author (uniform origin); batches of one and two points are enumerated",
 			"the client field of a constructed client state is non-nil",
+			"a function that is handed the *nats.Conn and returns data.NodeEdge values reads them from the store (R4); the window between that read and the subscription is not judged",
+			"clients keep the slice they are handed after Points / EdgePoints returns (every client of package client passes it to its Run goroutine through a channel) (R5)",
 		},
 		Run: runC08,
 	})
@@ -50,6 +54,9 @@ func runC08(c *kit.Ctx) {
 	r1 := c.Rule("R1", "echo-filter truth table", 8)
 	r2 := c.Rule("R2", "edge points pass through, restart points stop the client", 6)
 	r3 := c.Rule("R3", "subscription subject", 1)
+	r4 := c.Rule("R4", "a client is started from a node read by the activation that starts it", 1)
+	r5 := c.Rule("R5", "the batch handed to the client is not backed by storage the handler reuses", 2)
+	c08R4(c, m, r4)
 	n := 0
 	for _, f := range c.P.Funcs("client") {
 		if f.Body == nil || msgParam(f) == nil {
@@ -70,6 +77,7 @@ func runC08(c *kit.Ctx) {
 		c08R1(c, m, r1, h)
 		c08R2(c, m, r2, h)
 		c08R3(c, m, r3, h)
+		c08R5(c, m, r5, h)
 	}
 	if n == 0 {
 		c.Fatalf("no message handler of package client calls the client interface's Points method")
@@ -110,7 +118,7 @@ func c08Anchor(c *kit.Ctx, m *cmModel, f *kit.Func, pts *ast.CallExpr) *c08Handl
 			if s, ok := kit.ConstString(info, call.Args[1]); ok && s == "." {
 				h.chunks = kit.ObjOf(info, as.Lhs[0])
 			}
-		case len(call.Args) == 1 && isMsgField(f, call.Args[0], h.msg, "Data") && len(as.Lhs) == 2:
+		case c08TakesPayload(f, call, h.msg) && len(as.Lhs) == 2:
 			if t := info.TypeOf(as.Lhs[0]); t != nil {
 				if sl, ok := t.Underlying().(*types.Slice); ok && kit.IsNamedType(sl.Elem(), dataPkg, "Point") {
 					h.points = kit.ObjOf(info, as.Lhs[0])
@@ -132,6 +140,17 @@ func c08Anchor(c *kit.Ctx, m *cmModel, f *kit.Func, pts *ast.CallExpr) *c08Handl
 		return true
 	})
 	return h
+}
+
+// c08TakesPayload: one of the arguments of the call is the message's payload
+// (`PbDecodePoints(msg.Data)`, a decoder that is also handed a buffer, …).
+func c08TakesPayload(f *kit.Func, call *ast.CallExpr, msg *types.Var) bool {
+	for _, a := range call.Args {
+		if isMsgField(f, a, msg, "Data") {
+			return true
+		}
+	}
+	return false
 }
 
 // isOwnID: `<cs>.<node field>.ID` (cs = given client-state variable).
